@@ -511,7 +511,18 @@ class ObjectPairs(Suite):
                dict(cls='AutoC', a1={'step': 1, 'verbose_labels': True}, a2={'step': 1, 'verbose_labels': False}),
                dict(cls='AutoC', a1={'step': 1, 'debug': 1}, a2={'step': 1, 'debug': 2}),
                dict(cls='AutoA', a1={'a': ["x'", 'y']}, a2={'a': ["x', 'y"]}),
-               dict(cls='AutoA', a1={'a': 'a\\nb'}, a2={'a': 'a\nb'})]
+               dict(cls='AutoA', a1={'a': 'a\\nb'}, a2={'a': 'a\nb'}),
+               # arguments collected by ** and *; a raw argument kept in the private attribute
+               dict(cls='AutoK', a1={'a': 'ridge', 'alpha': 0.1}, a2={'a': 'ridge', 'alpha': 10.0}),
+               dict(cls='AutoK', a1={'a': 'ridge'}, a2={'a': 'ridge', 'alpha': 0.1}),
+               dict(cls='AutoK', a1={'a': 1, 'k': {'d': [1]}}, a2={'a': 1, 'k': {'d': [2]}}),
+               dict(cls='AutoV', a1={'steps': ['scale', 'clip']}, a2={'steps': ['clip', 'scale']}),
+               dict(cls='AutoV', a1={'steps': ['scale']}, a2={'steps': ['scale', 'scale']}),
+               dict(cls='AutoV', a1={'steps': [], 'mode': 'x'}, a2={'steps': [[]], 'mode': 'x'}),
+               dict(cls='AutoP', a1={'path': 'a.txt'}, a2={'path': 'b.txt'}),
+               dict(cls='AutoP', a1={'path': 'a.txt', 'scale': 1}, a2={'path': 'a.txt', 'scale': 2}),
+               dict(cls='AutoD', a1={'x': 1, 'rate': 1.0}, a2={'x': 1, 'rate': 1.5}),
+               dict(cls='AutoD', a1={'x': 1, 'opts': {'a': 1, 'b': [2]}}, a2={'x': 1, 'opts': {'a': 1, 'b': [3]}})]
         # a class edited and reloaded within one process (notebook autoreload): the class object is new, the name is not
         out += [dict(redefined=True, first=['a'], second=['a', 'b'], a1={'a': 1, 'b': 1}, a2={'a': 1, 'b': 2}),
                 dict(redefined=True, first=['a', 'b'], second=['b', 'c', 'a'], a1={'a': 1, 'b': 1, 'c': [1]}, a2={'a': 1, 'b': 1, 'c': [2]}),
